@@ -10,6 +10,9 @@ CHECKS = {
  "C02": ("exploration", "differential monitoring: reorged node vs linear twin vs pure ledger, byte-level served views",
          "Complete served views (tip state, index, stored blocks with supplements, element buckets incl. expiration lists, served elements with Merkle proofs, window ids, next block's expiring contracts) of a node driven through forks, reorgs and failed reorgs are compared byte for byte with a fresh node fed the final best chain linearly, at PRNG-chosen points of generated histories in all regimes, for checkpoint-initialised stores, and in the dedicated expiration-order scenario (known finding KF-C02-1).",
          "Tree-bucket nodes beyond the leaf count are excluded (never read by contract; served proofs are compared instead); v1 contracts get distinct window ends outside the order scenarios.", "§3 C02"),
+ "C05": ("exploration", "reference-model monitoring of the transaction pool after every step of generated histories, plus race detector on MineBlock vs submissions",
+         "After every pool submission, block, reorg and mined block of generated histories the reported pool sequence is validated transaction by transaction by core/consensus against the pure tip ledger; blocks mined by coreutils.MineBlock are labelled by the pure oracle and must be adopted; every accepted transaction that disappears must be confirmed, have an input spent/reverted in that step (exact ledger differences of the reverted/applied blocks), or be invalid on the new tip under the oracle. MineBlock also runs against concurrent submissions under -race.",
+         "Pool-full eviction is not reached; v1 contracts get globally distinct window ends.", "§3 C05"),
  "C14": ("exploration", "API-contract monitoring of pool submission/lookup on generated pool states",
          "Generated pool states holding v1 and v2 transactions together; after every submission (fresh, partly known, all known, conflicting with the pool at position k, invalid at position k) the listing is compared with the all-or-nothing expectation, the known flag with its definition, caller memory with its byte image and the pool with itself after scribbling over submitted/returned values; both lookup functions are called with every v1 id, v2 id and random ids under a panic guard.",
          "Transactions are produced and labelled by the pure generator (core/consensus); basis = tip for v2 submissions here (rebasing is C13).", "§3 C14"),
